@@ -320,16 +320,23 @@ func (s *Server) cmdJset(msg *Message) (res resp.Value, d commandDetails, err er
 		json = o.Geo().String()
 		fields = o.Fields()
 	}
+	var njson string
 	if raw {
 		// set as raw block
-		json, err = sjson.SetRaw(json, path, val)
+		njson, err = sjson.SetRaw(json, path, val)
 	} else {
 		// set as a string
-		json, err = sjson.Set(json, path, val)
+		njson, err = sjson.Set(json, path, val)
 	}
 	if err != nil {
 		return NOMessage, d, err
 	}
+	if njson == json && !gjson.Get(json, path).Exists() {
+		// a path with wildcards, queries or modifiers that selects nothing:
+		// nothing was set
+		return NOMessage, d, errPathNotFound
+	}
+	json = njson
 
 	if geoobj {
 		nmsg := *msg
